@@ -1313,14 +1313,14 @@ pub fn summarize(m: &UserModel<'_>) -> St {
         ls.sort();
         st.links.extend(ls);
         for c in &ws.cols {
-            if c.hidden && c.max - c.min < 64 {
+            if (c.hidden || (c.custom_width && c.width == 0.0)) && c.max - c.min < 64 {
                 for k in c.min..=c.max {
                     st.hidden_cols.push((i as u32, k));
                 }
             }
         }
         for r in &ws.rows {
-            if r.hidden {
+            if r.hidden || (r.custom_height && r.height == 0.0) {
                 st.hidden_rows.push((i as u32, r.r));
             }
         }
@@ -1425,11 +1425,28 @@ pub fn gen_input(rng: &mut Rng, st: &St, sheet: u32, row: i32, col: i32) -> Stri
         "multi\nline", "https://example.com", "www.ironcalc.com", "", "", "#N/A", "12:30", "1,000", "  padded ",
         "a\nb\nc",
     ];
+    // inputs that imply no format, link or quote prefix (used by the "plain" history profile)
+    const NO_FORMAT: &[&str] = &["1", "2", "3", "42", "2.5", "-3", "true", "FALSE", "hello", "world", "", "#N/A", "  padded ", "7"];
     if rng.chance(2, 5) {
         gen_formula(rng, st, sheet, row, col)
+    } else if plain_inputs() {
+        rng.pick(NO_FORMAT).to_string()
     } else {
         rng.pick(PLAIN).to_string()
     }
+}
+
+thread_local! {
+    static PLAIN_INPUTS: std::cell::Cell<bool> = const { std::cell::Cell::new(false) };
+}
+/// History profile: with `true`, typed inputs never imply a number format / link / quote prefix. The
+/// engine's most frequent undo defect (F01a: the implied format survives the undo) otherwise ends most
+/// histories at their first typed `10%`, and everything behind it stays unexplored.
+pub fn set_plain_inputs(v: bool) {
+    PLAIN_INPUTS.with(|c| c.set(v));
+}
+pub fn plain_inputs() -> bool {
+    PLAIN_INPUTS.with(|c| c.get())
 }
 
 pub fn gen_style_edit(rng: &mut Rng) -> (String, String) {
@@ -1572,7 +1589,46 @@ fn gen_array_op(rng: &mut Rng, st: &St) -> Op {
     }
 }
 
+/// Operations whose effective arguments the engine recomputes from the state (moves skip hidden rows
+/// / columns, inserts and deletes shift the hidden flags, fills run across them), aimed at a hidden or
+/// zero-size row / column `h`: landing zone containing it, several of them, adjacent to it, the hidden
+/// one itself being moved; both directions.
+fn gen_hidden_op(rng: &mut Rng, st: &St) -> Op {
+    let rows = !st.hidden_rows.is_empty() && (st.hidden_cols.is_empty() || rng.chance(1, 2));
+    if rows {
+        let (sheet, h) = *rng.pick(&st.hidden_rows);
+        match rng.below(10) {
+            0 => Op::MoveRows { sheet, row: (h - 1).max(1), count: 1, delta: rng.range(1, 3) as i32 },
+            1 => Op::MoveRows { sheet, row: (h - 2).max(1), count: rng.range(1, 2) as i32, delta: rng.range(1, 3) as i32 },
+            2 => Op::MoveRows { sheet, row: h + 1, count: 1, delta: -(rng.range(1, 3) as i32).min(h) },
+            3 => Op::MoveRows { sheet, row: h + 2, count: rng.range(1, 2) as i32, delta: -(rng.range(1, 3) as i32).min(h + 1) },
+            4 => Op::MoveRows { sheet, row: h, count: 1, delta: if rng.chance(1, 2) { rng.range(1, 2) as i32 } else { -(1.min(h - 1)) } },
+            5 => Op::InsertRows { sheet, row: (h + rng.range(-1, 1) as i32).max(1), count: rng.range(1, 2) as i32 },
+            6 => Op::DeleteRows { sheet, row: (h + rng.range(-1, 1) as i32).max(1), count: rng.range(1, 2) as i32 },
+            7 => Op::AutoFillRows { area: Ar::new(sheet, (h - 2).max(1), rng.range(1, 3) as i32, rng.range(1, 2) as i32, 1), to_row: h + rng.range(0, 2) as i32 },
+            8 => Op::SetRowsHeight { sheet, start: (h - 1).max(1), end: h + 1, height: *rng.pick(&[40.0, 0.0, 25.0]) },
+            _ => Op::SetUserInput { sheet, row: h, col: rng.range(1, 3) as i32, value: rng.pick(&["7", "=ROW()*10", "two\nlines"]).to_string() },
+        }
+    } else {
+        let (sheet, h) = *rng.pick(&st.hidden_cols);
+        match rng.below(9) {
+            0 => Op::MoveColumns { sheet, col: (h - 1).max(1), count: 1, delta: rng.range(1, 3) as i32 },
+            1 => Op::MoveColumns { sheet, col: (h - 2).max(1), count: rng.range(1, 2) as i32, delta: rng.range(1, 3) as i32 },
+            2 => Op::MoveColumns { sheet, col: h + 1, count: 1, delta: -(rng.range(1, 3) as i32).min(h) },
+            3 => Op::MoveColumns { sheet, col: h + 2, count: rng.range(1, 2) as i32, delta: -(rng.range(1, 3) as i32).min(h + 1) },
+            4 => Op::MoveColumns { sheet, col: h, count: 1, delta: if rng.chance(1, 2) { rng.range(1, 2) as i32 } else { -(1.min(h - 1)) } },
+            5 => Op::InsertColumns { sheet, col: (h + rng.range(-1, 1) as i32).max(1), count: rng.range(1, 2) as i32 },
+            6 => Op::DeleteColumns { sheet, col: (h + rng.range(-1, 1) as i32).max(1), count: rng.range(1, 2) as i32 },
+            7 => Op::AutoFillColumns { area: Ar::new(sheet, rng.range(1, 3) as i32, (h - 2).max(1), 1, rng.range(1, 2) as i32), to_col: h + rng.range(0, 2) as i32 },
+            _ => Op::SetColumnsWidth { sheet, start: (h - 1).max(1), end: h + 1, width: *rng.pick(&[40.0, 0.0, 90.0]) },
+        }
+    }
+}
+
 pub fn gen_valid_op(rng: &mut Rng, st: &St) -> Op {
+    if (!st.hidden_rows.is_empty() || !st.hidden_cols.is_empty()) && rng.chance(14, 100) {
+        return gen_hidden_op(rng, st);
+    }
     if !st.arrays.is_empty() && rng.chance(14, 100) {
         return gen_array_op(rng, st);
     }
